@@ -53,10 +53,35 @@ def build(rng, cname, ctext, ctx, nl, with_multiline_string, with_filters):
         lines.append(t.format(n=n))
         if with_multiline_string and rng.random() < 0.2:
             k = rng.randint(1, 3)
-            lines.append("let ms%d = \"first" % n)
-            for j in range(k - 1):
-                lines.append("middle %d" % j)
-            lines.append("last\";")
+            shape = rng.randrange(5)
+            if shape == 0:
+                # banner style: the literal starts and ends with a line break
+                lines.append("let ms%d = \"" % n)
+                for j in range(k):
+                    lines.append("banner %d" % j)
+                lines.append("\";")
+            elif shape == 1:
+                # blank lines inside, line break right before the closing quote
+                lines.append("let ms%d = \"first" % n)
+                for j in range(k):
+                    lines.append("")
+                lines.append("\";")
+            elif shape == 2:
+                # only line breaks
+                lines.append("let ms%d = \"" % n)
+                for j in range(k - 1):
+                    lines.append("")
+                lines.append("\";")
+            elif shape == 3:
+                # escapes next to the line breaks and two literals on the closing line
+                lines.append("let ms%d = \"a\\n\\tq" % n)
+                lines.append("tail\" + \"x")
+                lines.append("y\";")
+            else:
+                lines.append("let ms%d = \"first" % n)
+                for j in range(k - 1):
+                    lines.append("middle %d" % j)
+                lines.append("last\";")
         if with_filters and rng.random() < 0.15:
             lines.append("@ false { puts(\"never\"); }")
     stmt = "let v = %s;" % ctext if rng.random() < 0.5 else "%s;" % ctext
